@@ -5,7 +5,7 @@ open GluonModel GluonModel.FindPos
 /-
 Request:  (find <len> (names "x" …) <expr>)
   expr := (L lo hi) | (Z lo hi) | (O lo hi expr…) | (I lo hi expr oplo ophi expr) | (P lo hi expr)
-        | (F lo hi (arg…) expr) | (B lo hi rec (bind…) expr) | (M lo hi expr (alt…))
+        | (A lo hi expr) | (F lo hi (arg…) expr) | (B lo hi rec (bind…) expr) | (M lo hi expr (alt…))
         | (R lo hi (field…) [expr]) | (E lo hi)
   arg  := (lo hi id)      bind := (pat (arg…) expr)     alt := (pat expr)
   field := (lo hi) | (lo hi expr)
@@ -43,6 +43,7 @@ partial def parseExpr : Sexp → Option Expr
   | .list [.atom "I", a, b, l, c, d, r] => do
     pure (.infix ⟨← nat? a, ← nat? b⟩ (← parseExpr l) ⟨← nat? c, ← nat? d⟩ (← parseExpr r))
   | .list [.atom "P", a, b, e] => do pure (.proj ⟨← nat? a, ← nat? b⟩ (← parseExpr e))
+  | .list [.atom "A", a, b, e] => do pure (.annotated ⟨← nat? a, ← nat? b⟩ (← parseExpr e))
   | .list [.atom "F", a, b, .list args, e] => do
     pure (.lambda ⟨← nat? a, ← nat? b⟩ (← args.mapM parseArg) (← parseExpr e))
   | .list [.atom "B", a, b, r, .list binds, e] => do
